@@ -321,6 +321,13 @@ def run(ctx):
     except Skip:
         pass
 
+    # a path that fails to (un)register is reported, once per path, with the right kind (shared with C15 R15.2)
+    try:
+        from . import c15 as _c15b
+        _c15b.multi_path_errors(ctx, "R13.3")
+    except Skip:
+        pass
+
     # ---- R13.10 CLI plumbing
     try:
         mk = ctx.anchor_fn("R13.10", "watchexec_cli::config::make_config")
